@@ -344,7 +344,7 @@ def parse_vopts(src, cls, where):
 
 # ------------------------------------------------------------------------------------------------ writer
 IGNORED_WRITER_STMT = re.compile(
-    r"^(unsigned int i|int i = 0|i = 0|s_oss\.precision\(DBL_DIG - 1\)|std::string indent0\(\"\"\)(, indent\d\(\"\"\))*|"
+    r"^(unsigned int i|int i = 0|i = 0|s_oss\.precision\(DBL_DIG [-+] \d\)|std::string indent0\(\"\"\)(, indent\d\(\"\"\))*|"
     r"std::string indent1 = indent0|indent\d\.append\(Utilities::INDENT\)|return|"
     r"int n_user_local = \(n_out != NULL\) \? \*n_out : this->n_user|"
     r"std::map\s*<[^;]*>::const_iterator \w+( = (this->)?\w+\.begin\(\))?)$")
